@@ -487,7 +487,7 @@ def persistAndAdvance (o : Oracle) (m : Manifest) (w : W) (c : Ctl) (next : CSta
 /-- controller.go `run`. The last component of `persistAndAdvance` says the
     loop is left. -/
 def runLoop (sem : Sem) (o : Oracle) (cfg : Cfg) (m : Manifest) : Nat → W → Ctl → W × Ctl × Option ErrClass
-  | 0, w, c => (w, c, none)
+  | 0, w, c => (w, c, some .gen)   -- out of fuel: never reached with `fuel` (theorem `fuel_suffices`)
   | fuel + 1, w, c =>
     if c.cur = .terminal then (w, c, none) else
     match stateFn sem o cfg m c.cur w c with
